@@ -156,14 +156,18 @@ LookupDecreasing == Labelling => \A i \in 1..NN : lookup[i] # 0 => lookup[i] < i
 IdsBounded == Labelling => \A k \in 0..NN-1 : regions[k] <= region
 \* the forest never joins two components ...
 ForestNeverJoins ==
-  Labelling => \A k1 \in Pixels, k2 \in Pixels :
-     (Processed(k1) /\ Processed(k2) /\ Root(lookup, regions[k1]) = Root(lookup, regions[k2]))
-        => CompOf(Cell(k1)) = CompOf(Cell(k2))
+  Labelling =>
+    LET P == {k \in Pixels : Processed(k)}
+        root == [k \in P |-> Root(lookup, regions[k])]
+        comp == [k \in P |-> CompOf(Cell(k))]
+    IN \A k1 \in P, k2 \in P : root[k1] = root[k2] => comp[k1] = comp[k2]
 \* ... and between two pixels every pair of adjacent equal pixels already scanned is joined
 ForestJoinsScanned ==
-  pc = "label" => \A k1 \in Pixels, k2 \in Pixels :
-     (k1 < ij /\ k2 < ij /\ Cell(k2) \in SameNbrs(G, Cell(k1)))
-        => Root(lookup, regions[k1]) = Root(lookup, regions[k2])
+  pc = "label" =>
+    LET P == {k \in Pixels : k < ij}
+        root == [k \in P |-> Root(lookup, regions[k])]
+    IN \A k1 \in P : \A q \in SameNbrs(G, Cell(k1)) :
+          LET k2 == q[1] * NX + q[2] IN k2 < ij => root[k1] = root[k2]
 \* after compaction: regions are the components, masked pixels are region 0, and ids are numbered
 \* in the order of their first pixel (which _scan relies on: "regions[ij] == region_done+1")
 Labelled == pc \in {"scan_ext", "scan_hole", "follow", "done"}
